@@ -24,8 +24,20 @@ def model(ctx):
                 ["harness/core/internal/integration_tests/e2e_common_test.go", "harness/core/internal/integration_tests/c01_test.go"], timeout=1500)
 
 
+def system(ctx):
+    """The composition (Hysteria.tla / Prop_E2E): reconnecting client o auth gate o (relay || UDP sessions with policy)."""
+    T = ctx.thorough
+    ctx.tlc_mc("Hysteria", "MC_Hysteria_big.cfg" if T else "MC_Hysteria.cfg", timeout=1500)
+    for m in ("AuthPerGen", "CheckEveryDgram", "FlowsDieWithConn", "OrderKept"):
+        ctx.tlc_mc("Hysteria", "MC_Hysteria_mut%s.cfg" % m, expect_violation=True)
+    ctx.go_test("core", "./internal/integration_tests/", "TestVerif_E2E$",
+                ["harness/core/internal/integration_tests/e2e_common_test.go", "harness/core/internal/integration_tests/e2e_system_test.go"], timeout=1500)
+    ctx.validate("Prop_E2E", sig=sig, traces=[ctx.out + "/trace-E2E.ndjson"])
+
+
 def run(ctx):
     model(ctx)
-    ctx.validate("Prop_C01", sig=sig, distinct=distinct)
+    ctx.validate("Prop_C01", sig=sig, distinct=distinct, traces=[ctx.out + "/trace-C01.ndjson"])
+    system(ctx)
     ctx.assumptions += ["datagrams sent before authentication may be relayed after it (they wait in QUIC's queue); the statement allows that"]
     return ctx.finish(rule="one case = one scenario: a sequence of client operations (auth good/bad, near-miss and other HTTP/3 requests, raw 0x401 streams, UDP datagrams) on 1-3 concurrent connections, sequentially or in concurrent bursts")
